@@ -45,6 +45,9 @@ type shortReader struct {
 	data []byte
 	pos  int
 	max  int
+	// eofWithData: the last Read returns its bytes together with io.EOF, which
+	// the io.Reader contract allows
+	eofWithData bool
 }
 
 func (r *shortReader) Read(p []byte) (int, error) {
@@ -60,6 +63,9 @@ func (r *shortReader) Read(p []byte) (int, error) {
 	}
 	copy(p, r.data[r.pos:r.pos+n])
 	r.pos += n
+	if r.eofWithData && r.pos == len(r.data) {
+		return n, io.EOF
+	}
 	return n, nil
 }
 
@@ -72,13 +78,16 @@ func (r *shortReader) ReadByte() (byte, error) {
 }
 
 // makeReader: 0 = bytes.Reader, 1 = bufio.Reader with a 16-byte buffer,
-// k >= 2 = a reader that returns at most k-1 bytes per call.
+// 2 <= k < 100 = a reader that returns at most k-1 bytes per call, k >= 100 = the
+// same (k-99 bytes) whose last Read returns its data together with io.EOF.
 func makeReader(kind int, data []byte) avro.Reader {
 	switch {
 	case kind <= 0:
 		return bytes.NewReader(data)
 	case kind == 1:
 		return bufio.NewReaderSize(bytes.NewReader(data), 16)
+	case kind >= 100:
+		return &shortReader{data: data, max: kind - 99, eofWithData: true}
 	}
 	return &shortReader{data: data, max: kind - 1}
 }
@@ -202,7 +211,7 @@ func drawEncCase(t *rapid.T) encCase {
 		c.FlushAfter = append(c.FlushAfter, rapid.SampledFrom([]int{0, 0, 0, 0, 1, 1, 2}).Draw(t, "flush"))
 	}
 	c.ByPointer = rapid.Bool().Draw(t, "byPointer")
-	c.Reader = []int{0, 0, 1, 2, 4, 8}[gen.Uniform(t, "reader", 6)]
+	c.Reader = []int{0, 0, 1, 2, 4, 8, 100, 4195}[gen.Uniform(t, "reader", 8)]
 	return c
 }
 
